@@ -84,6 +84,21 @@ func FieldsFromStruct(t reflect.Type) TypesTable {
 
 			types[f.Name] = Tag{Type: f.Type}
 		}
+
+		// Resolve every gathered name the way Go (and the VM, through
+		// reflect's FieldByName) does: depth decides between equal names,
+		// equal depth is ambiguous, unexported fields are not accessible.
+		for name := range types {
+			f, ok := t.FieldByName(name)
+			switch {
+			case !ok:
+				types[name] = Tag{Ambiguous: true}
+			case f.PkgPath != "":
+				delete(types, name)
+			default:
+				types[name] = Tag{Type: f.Type}
+			}
+		}
 	}
 
 	return types
